@@ -1284,18 +1284,21 @@ CONFIG["C09"] = dict(
          "reply or a shutdown. Distinct = distinct scripts.",
     level_text="On the responder model (exact on these histories, compared with the real daemon every run) - Lean theorems: "
                "unregister answers OK exactly when the lower-cased name is registered, NotFound (and nothing else) otherwise; "
-               "on OK exactly one goodbye packet per interface and family in which the service has an in-subnet address: PTR, "
+               "on OK exactly one goodbye packet per interface on which the service is Announced and family in which it has an "
+               "in-subnet address there - and none elsewhere (goodbye_only_where_announced, goodbye_where_announced; the "
+               "statement's 'only where the service was announced' holds since the repair of D30, the witness of its former "
+               "negation is a regression example and a corpus case): PTR, "
                "subtype PTR, SRV, TXT, those addresses, every record TTL 0, id 0; each packet queued once more for +120 ms with "
-               "the same content and a timer armed; the repeat sends the very same packet; shutdown does the same for every "
+               "the same content and a timer armed; the repeat sends the very same packet; the unregistered service is taken "
+               "out of the probes it waited for, and a probe nobody else waits for is dropped (unregister_leaves_probes); "
+               "shutdown does the same for every "
                "service and forgets everything; afterwards the name is not registered, other services are untouched, the "
-               "queued second announcement is a no-op and queries are answered from the remaining services only. The "
-               "statement's 'only where the service was announced' is FALSE of the code: goodbye_while_probing proves the "
-               "negation on a witness (finding D30, also executed on the real code from corpus/C09).",
+               "queued second announcement is a no-op and queries are answered from the remaining services only.",
     level_note=_RESP_TRUST + "The goodbye always carries the names as registered; after a rename by conflict resolution that "
                "is the wrong name (D21, recorded under C08).",
-    partial=["goodbye_contract_full ('a goodbye only where the service is Announced') is false of the code (D30); proved is "
-             "goodbye_contract / goodbye_contract_partial: one packet per interface and family with an in-subnet address, "
-             "whatever the status",
+    partial=["'Announced' is the per-interface status of the CURRENT registration: it is set when either family was announced "
+             "(D32) and starts over at a re-registration (D40) - with these two known findings 'where announced' differs from "
+             "'where some packet announced it'",
              "'under the names most recently announced' is not claimed (original names are used, D21)"],
     assumptions=_RESP_ASSUME,
 )
